@@ -9,7 +9,12 @@ def obligations(tier):
     return [Ob("C20.import_order", "PY", "vf.im", "check", 900,
                funcs=tuple("chartparse/%s.py (import-time program)" % m for m in
                            ("chart", "event", "exceptions", "globalevents", "hints", "instrument", "metadata", "sync", "tick", "time", "track", "util")),
-               bounds="every dependency-closed set of already-loaded modules x every next module (inductive step => all import orders of any length); unrolled to the derived step bound")]
+               bounds="every dependency-closed set of already-loaded modules x every next module (inductive step => all import orders of any length); unrolled to the derived step bound"),
+            Ob("C20.bound_objects", "PY", "vf.im_state", "check", 900,
+               funcs=("chartparse/*.py (module bodies executed in fresh interpreters)",),
+               bounds="concrete complement (exhaustive over the property's own quantifier): every module imported first and every ordered pair imported first and second, "
+                      "then the rest; a structural fingerprint (depth 3: classes with their attributes, bases and MRO, containers in order, loggers with their class, "
+                      "process-wide logging settings) of every module-level name must equal the chart-first order's")]
 
 
 LEVEL_TEXT = ("The import-time programs of the 12 modules are extracted from the live ASTs and executed symbolically by z3 as an explicit-stack "
@@ -18,7 +23,7 @@ LEVEL_TEXT = ("The import-time programs of the 12 modules are extracted from the
 LEVEL_NOTE = ("Hand-written import-protocol semantics (trusted, validated on every run against 12 fresh-interpreter first-imports). Each body "
               "runs exactly once per interpreter, so the same names are bound to the same objects in every order. Outside: imports inside "
               "functions at call time, importlib.reload, clients catching ImportError.")
-TECHNIQUE = "bounded model check (z3 bit-vectors) of the import-time programs extracted from the live ASTs, inductive step over loaded-sets"
+TECHNIQUE = "bounded model check (z3 bit-vectors) of the import-time programs extracted from the live ASTs, inductive step over loaded-sets; complemented by an exhaustive fresh-interpreter comparison of the bound objects over first-imports and ordered pairs"
 ENGINE = "IM"
 EXPLANATION = "see obligation_table"
 BOUNDS = "12 modules; unrolling bound = import events + 3*modules + 2 (derived from the programs)"
